@@ -421,4 +421,38 @@ pub mod vx_export {
         let proof = azks.get_non_membership_proof::<TC, _>(&db, lbl(0x40)).await?;
         Ok(verify_nonmembership_for_tests_only::<TC>(root_hash, &proof).is_ok())
     }
+
+    /// C15 (all-states read): database holds (user, epoch e_db, "A"), the transaction holds (user, epoch e_t, "B") - the same epoch is a
+    /// pending REWRITE of a committed record. Returns the (epoch, value) lists of get_user_data inside the transaction and after commit (sorted).
+    pub async fn c15_user_data(e_db: u64, e_t: u64) -> Result<(Vec<(u64, Vec<u8>)>, Vec<(u64, Vec<u8>)>), AkdError> {
+        use crate::storage::types::ValueState;
+        let db = AsyncInMemoryDatabase::new();
+        let m = StorageManager::new_no_cache(db.clone());
+        let user = AkdLabel::from("u");
+        let st = |e: u64, v: u64, val: &str| DbRecord::ValueState(ValueState {
+            value: AkdValue(val.as_bytes().to_vec()), version: v, label: NodeLabel::new([1u8; 32], 256), epoch: e, username: user.clone() });
+        m.set(st(e_db, 1, "A")).await.map_err(AkdError::Storage)?;
+        if !m.begin_transaction() { return Err(AkdError::TestErr("no txn".to_string())); }
+        m.set(st(e_t, if e_t == e_db { 1 } else { 2 }, "B")).await.map_err(AkdError::Storage)?;
+        m.set(DbRecord::Azks(Azks { latest_epoch: e_t.max(e_db), num_nodes: 1 })).await.map_err(AkdError::Storage)?;
+        let norm = |k: crate::storage::types::KeyData| { let mut v: Vec<(u64, Vec<u8>)> = k.states.into_iter().map(|s| (s.epoch, s.value.0)).collect(); v.sort(); v };
+        let inside = norm(m.get_user_data(&user).await.map_err(AkdError::Storage)?);
+        m.commit_transaction().await.map_err(AkdError::Storage)?;
+        let after = norm(m.get_user_data(&user).await.map_err(AkdError::Storage)?);
+        Ok((inside, after))
+    }
+
+    /// C15 (pending writes survive a refused begin): begin, set X, begin again (refused: a transaction is open), then read X through
+    /// the manager and commit. Returns (second begin refused, X readable before commit, X in the database after commit).
+    pub async fn c15_refused_begin() -> Result<(bool, bool, bool), AkdError> {
+        let db = AsyncInMemoryDatabase::new();
+        let m = StorageManager::new_no_cache(db.clone());
+        if !m.begin_transaction() { return Err(AkdError::TestErr("no txn".to_string())); }
+        m.set(DbRecord::Azks(Azks { latest_epoch: 7, num_nodes: 3 })).await.map_err(AkdError::Storage)?;
+        let refused = !m.begin_transaction();
+        let readable = matches!(m.get::<Azks>(&crate::append_only_zks::DEFAULT_AZKS_KEY).await, Ok(DbRecord::Azks(a)) if a.latest_epoch == 7);
+        let _ = m.commit_transaction().await;
+        let stored = matches!(db.get::<Azks>(&crate::append_only_zks::DEFAULT_AZKS_KEY).await, Ok(DbRecord::Azks(a)) if a.latest_epoch == 7);
+        Ok((refused, readable, stored))
+    }
 }
